@@ -875,10 +875,79 @@ def plan_meta(w: World, op: dict) -> Plan:
 
 
 # ------------------------------------------------------------------------------
+# Node.from_dict on an (empty) node of an existing tree - "append copies of all
+# source children to self"; a duplicate among the new siblings is refused (C13)
+# ------------------------------------------------------------------------------
+@handler("fromdict")
+def plan_fromdict(w: World, op: dict) -> Plan:
+    si, nm = w.mnode(op["node"])
+    rn = w.real(op["node"])
+    if nm is None or rn is None:
+        return Plan(SKIP)
+    if nm.children:
+        return Plan(EXCLUDED, why="from_dict() wants a node without children")
+    mt = tree_of(w, si)
+    if nm.is_root():
+        rn = rn._root  # Tree.from_dict is a constructor; the node method lives on the root
+    uidgen = UidGen(op["id"])
+    collide = False
+    kind = DEFAULT_KIND if mt.typed else None
+
+    class _Skip(Exception):
+        pass
+
+    def build(items):
+        nonlocal collide
+        out_m, out_r, dids = [], [], []
+        for src, data_id, kids in items:
+            found, obj = resolve_data(w, src)
+            if not found:
+                raise _Skip()
+            did = data_id if data_id is not None else mt.rule(obj)  # TypeError: excluded
+            if did in dids:
+                collide = True
+            dids.append(did)
+            m = MNode(uidgen(), obj, did, explicit=data_id is not None, kind=kind)
+            r = {"data": obj}
+            if data_id is not None:
+                r["data_id"] = data_id
+            km, kr = build(kids)
+            for k in km:
+                m.insert(k, None)
+            if kr or op.get("empty_children_key"):
+                r["children"] = kr
+            out_m.append(m)
+            out_r.append(r)
+        return out_m, out_r
+
+    try:
+        new_m, new_r = build(op["items"])
+    except _Skip:
+        return Plan(SKIP)
+    except TypeError:
+        return Plan(EXCLUDED, why="unhashable data without data_id")
+
+    def call():
+        return rn.from_dict(new_r)
+
+    trigger = "fromdict"
+    if collide:
+        return Plan(REFUSE, why="duplicate-sibling", refuse=UNIQUE, call=call, owner="C13",
+                    trigger=trigger + "/duplicate-sibling", slots=(si,))
+
+    def apply():
+        for m in new_m:
+            nm.insert(m, None)
+        return None
+
+    return Plan(OK, call=call, apply=apply, owner="C14", trigger=trigger, slots=(si,))
+
+
+# ------------------------------------------------------------------------------
 # filter (in place) - C08
 # ------------------------------------------------------------------------------
 VERDICTS = ("T", "F", "N", "SK", "SKself", "SEL", "STOP")
-MODES = ("ret", "raise", "raise_cls")
+MODES = ("ret", "raise", "raise_cls", "ret_cls")
 
 
 class PredicateSim:
@@ -893,6 +962,10 @@ class PredicateSim:
     def verdict_of(self, uid):
         v = self.verdicts.get(uid, self.default)
         return v[0] if isinstance(v, (list, tuple)) else v
+
+    def mode_of(self, uid):
+        v = self.verdicts.get(uid, self.default)
+        return v[1] if isinstance(v, (list, tuple)) and v[0] != "SKself" else "ret"
 
     def model_verdict(self, uid):
         v = self.verdict_of(uid)
@@ -924,6 +997,9 @@ class PredicateSim:
             raise KeyError(verdict)
         if mode == "ret":
             return inst
+        if mode == "ret_cls":
+            # "can be returned as value": the control class itself
+            return cls if cls is not None else inst
         if mode == "raise_cls" and cls is not None:
             raise cls
         raise inst
@@ -945,6 +1021,8 @@ def plan_filter(w: World, op: dict) -> Plan:
     fr = model_filter(tm, pred.model_verdict)
     used = sorted({pred.verdict_of(u) for u in fr.calls})
     trigger = "filter/" + "+".join(used)
+    if any(pred.mode_of(u) == "ret_cls" for u in fr.calls):
+        trigger += "/ret_cls"
 
     def call():
         return rt.filter(pred)
